@@ -116,13 +116,13 @@ impl Property for C05 {
         }
     }
     fn rule(&self) -> String {
-        "Metamorphic, no model: histories as in C01; after every operation for pool addresses, malformed strings and addresses of another network, and every c in {none, 0..=best-chain length+2}: get_balance(a,c) must equal the sum over all pages of get_utxos(a,c); both must refuse the same requests with the same error class; query variants equal update variants. Non-trivial: non-zero balance on a tree with >= 2 leaves, or c >= 2 with non-zero balance; distinct = (tree shape, c, balance) hashes. In 40% of the histories stabilising blocks are ingested in slices (budgets of 1..5 operations) and the relation is also checked after every paused round.".into()
+        "Metamorphic, no model: histories as in C01; after every operation for pool addresses, malformed strings and addresses of another network, and every c in {none, 0..=best-chain length+2}: get_balance(a,c) must equal the sum over all pages of get_utxos(a,c); both must refuse the same requests with the same error class; query variants equal update variants; the all-upper-case bech32 spelling of a segwit address is the same request as the lower-case one. Non-trivial: non-zero balance on a tree with >= 2 leaves, or c >= 2 with non-zero balance; distinct = (tree shape, c, balance) hashes. In 40% of the histories stabilising blocks are ingested in slices (budgets of 1..5 operations) and the relation is also checked after every paused round.".into()
     }
     fn brief(&self, case: &Case05) -> serde_json::Value {
         serde_json::json!({"budgets": case.budgets, "history": history_brief(&case.hist)})
     }
     fn required_classes(&self, _tier: Tier) -> Vec<&'static str> {
-        vec!["nonzero_on_fork", "c_ge_2_nonzero", "both_refuse_too_large", "both_refuse_malformed", "both_refuse_wrong_network", "relation_checked_while_ingestion_paused"]
+        vec!["nonzero_on_fork", "c_ge_2_nonzero", "both_refuse_too_large", "both_refuse_malformed", "both_refuse_wrong_network", "relation_checked_while_ingestion_paused", "uppercase_bech32_spelling"]
     }
     fn fuzz_sequences(&self) -> Vec<(&'static str, usize)> {
         vec![("/ops", 40)]
@@ -178,6 +178,15 @@ impl Property for C05 {
                             out.nontrivial(shape(&w, &[cc as u64, b]));
                         }
                     }
+                }
+            }
+            // the same address in its all-upper-case bech32 spelling: the same request
+            if super::c01::is_bech32(&a) && i % 2 == 1 {
+                let lower = check_balance_vs_utxos(&mut w, i, &a, None, &mut out);
+                let upper = check_balance_vs_utxos(&mut w, i, &a.to_uppercase(), None, &mut out);
+                out.class("uppercase_bech32_spelling");
+                if lower != upper {
+                    out.fail(format!("step {i}: the upper-case spelling of {a} is answered with {:?}, the lower-case spelling with {:?} (balance, accepted)", upper, lower));
                 }
             }
             // malformed and foreign addresses
